@@ -451,6 +451,29 @@ def gen_plan(seed: int, scale: int = 1):
             n = rng.choice(nodes[:-1])
             events.append({"t": t + rng.randint(1, 40), "type": "rollback", "node": n["id"]})
     events.sort(key=lambda e: e["t"])
+    # a third of the fleets keep part of the schema in an imported file (what is where may change
+    # from version to version as definitions start to refer to one another; never the wire format)
+    split = None
+    srng = Rng(seed, "split")
+    if srng.chance(0.35):
+        cands = [d.name for d in versions[0].defs if d.kind in ("message", "enum", "alias") and d.name != "Packet"]
+        picked = [n for n in cands if srng.chance(0.6)]
+        if picked:
+            split = {"lib": picked, "alias": srng.choice(["lib", "base", "x"])}
+            # The pinned Python generator drops the module prefix when the main file refers to a
+            # message NESTED inside a message of an imported file (`lib.Outer.Inner` becomes
+            # `Outer_Inner`: NameError when the generated module is imported) -- a defect of
+            # "generated code is accepted by the target toolchain" (C10), not of C05. Fleets whose
+            # schema has that shape run on the C runtime only (the C generator is right).
+            for i, v in enumerate(versions):
+                v.split_nested_ref = False
+                v.split_texts(split["lib"], "pktlibv%d" % i, "pktlibv%d.bitproto" % i, split["alias"])
+                if v.split_nested_ref:
+                    split["c_only"] = True
+            if split.get("c_only"):
+                for n in nodes:
+                    if n["runtime"] == "py":
+                        n["runtime"] = "c"
     plan = {
         "world": "fleet",
         "seed": seed,
@@ -460,4 +483,6 @@ def gen_plan(seed: int, scale: int = 1):
         "nodes": nodes,
         "events": events,
     }
+    if split:
+        plan["split"] = split
     return plan
